@@ -111,6 +111,9 @@ def _w_g1(chunk):
     r = core.Res()
     lo, hi, seeds, reps = chunk
     for code in range(lo, hi):
+        if core.expired():
+            r.caps.append('deadline reached inside a chunk')
+            break
         G = O.k1graph(code)
         info = classify(G)
         if info['pre'] or info['regular'] is not None or info['arcless']:
@@ -125,6 +128,9 @@ def _w_g2(chunk):
     r = core.Res()
     lo, hi, seeds, reps = chunk
     for m in range(lo, hi):
+        if core.expired():
+            r.caps.append('deadline reached inside a chunk')
+            break
         mask = {i for i in range(16) if m >> i & 1}
         G = O.from_mask(mask, 2)
         info = classify(G)
